@@ -176,6 +176,7 @@ func e1BaseGrid(tier string) []e1Grid {
 		{mcfg("mpegts", false, 3, "h264b"), "reorder"},
 		{mcfg("fmp4", false, 3, "h264b"), "reorder"},
 		{mcfg("ll", false, 7, "h264b"), "reorder"},
+		{mcfg("mpegts", true, 3, "h264", "aac48k90"), "inter"},
 		{mcfg("mpegts", false, 3, "h264k"), "timing"},
 		{mcfg("mpegts", false, 3, "h264bk"), "reorder"},
 		{mcfg("mpegts", false, 3, "h264k", "aac44"), "inter"},
@@ -341,6 +342,9 @@ func e1Scens(prop, tier string) []e1Scen {
 	tsa := mcfg("mpegts", false, 3, "aac44")
 	per := e1Scen{Prop: prop, Cfg: tsa, Alpha: alphaAudio(tsa), Mode: "periodic", Period: 2, Len: 430, Name: "ts-audio-only-periodic"}
 	out = append(out, e1Shard(per, shards)...)
+	// the same with time stamps on a clock that is not the sample rate (90 kHz for 48 kHz audio)
+	tsa90 := mcfg("mpegts", false, 3, "aac48k90")
+	out = append(out, e1Scen{Prop: prop, Cfg: tsa90, Alpha: alphaAudio(tsa90)[:2], Mode: "periodic", Period: 2, Len: 330, Name: "ts-audio-only-other-clock-periodic"})
 	// the same with 16 kHz audio and SegmentMinDuration = 100 access units exactly (6.4 s): the duration condition is met
 	// with equality at the very write that meets the count condition
 	tsa16 := mcfg("mpegts", false, 3, "aac16")
